@@ -446,3 +446,49 @@ def run(ck, prog):
 
 
 EXPLANATION += (' F-beta: beta^2 multiplies the precision in the denominator (provenance of the two sub-scores). AUC: the tie scan can reach the last element (no strict `< len - 1` bound on an index that reads the score at that index).')
+
+
+# ------------------------------------------------------------------ AUC: the buffer scanned for runs of equal scores is the sorted one
+_run_pre_sortedscan = run
+
+
+def auc_scans_sorted(ck, prog):
+    """Ties are found by comparing entries of one buffer at two positions (run detection).  Runs are contiguous only in
+    sorted order: a buffer that is a plain copy of the input scores (to_vec / clone / to_owned of a parameter) has to be
+    sorted in place by some call before the scan reads it.  A non-mutating argsort leaves the copy in input order: the
+    permutation is right, the tie groups are not."""
+    from sa.prov import Resolver, render, subterms, alts
+    from sa.e1 import BodyCtx
+    rule, inst = "E2-provenance", "AUC::get_score: the buffer scanned for equal neighbours has been sorted in place"
+    try:
+        b = prog.one(r"^metrics::auc::AUC::get_score$")
+    except AnchorError as e:
+        ck.violation(rule, inst, "AUC::get_score", "", expected="anchor exists", found=f"anchor vanished: {e}")
+        return
+    cx = BodyCtx.of(b)
+    n = 0
+    for c in cx.cmps:
+        if c.rel not in ("==", "!=") or c.lhs[0] != "idx" or c.rhs[0] != "idx" or c.lhs[1] != c.rhs[1]:
+            continue
+        base = c.lhs[1]
+        al = list(alts(base))
+        copies = [a for a in al if a[0] == "call" and a[1].split("::")[-1] in ("to_vec", "clone", "to_owned") and a[2] and a[2][0][0] == "arg"]
+        if not copies or len(copies) + sum(1 for a in al if a[0] == "call" and a[1].startswith("mut:")) != len(al):
+            continue                                                  # not a plain copy of an input: some other construction
+        n += 1
+        sorts = [a for a in al if a[0] == "call" and a[1].startswith("mut:") and "sort" in a[1].split("::")[-1]]
+        if sorts:
+            ck.ok(rule, inst, b.path, c.where, f"copy of `{copies[0][2][0][2]}` sorted in place by {sorts[0][1].split('::')[-1]}")
+        else:
+            ck.violation(rule, inst, b.path, c.where, expected="the copy of the scores is sorted in place before runs of equal neighbours are looked for",
+                         found=f"`{render(base)[:60]}` is a copy of the input that no sorting call writes to; equal scores are adjacent only in sorted order")
+    if n == 0:
+        ck.note(f"{inst}: no equality scan over a plain copy of an input: no instance")
+
+
+def run(ck, prog):
+    _run_pre_sortedscan(ck, prog)
+    auc_scans_sorted(ck, prog)
+
+
+EXPLANATION += " AUC: the copy of the scores that is scanned for runs of equal neighbours is sorted in place by the call that yields the permutation."
